@@ -61,6 +61,10 @@ def generate(seed, tier="quick"):
         if need_import:
             f["header"]["imports"] = "explicit"
             f["header"].setdefault("pre", []).insert(0, "from inline_snapshot import external")
+    mrng = sub(seed, "mutation")
+    if mrng.random() < 0.3:
+        # the compared object keeps changing after the comparison: what the first run writes must be what was compared, else the second run changes it again
+        W.add_mutation_test(mrng, prog["files"][0], style="rec")
     frng = sub(seed, "flags")
     approved = list(CATS) if frng.random() < 0.5 else [c for c in CATS if frng.random() < 0.5]
     driver = "plugin" if sub(seed, "driver").random() < 0.25 else "inline"
